@@ -62,10 +62,16 @@ def pair_convergence(h):
     (direction x {one byte, everything pending}), afterwards everything pending is delivered alternately."""
     nd = h.params.get("decisions", 5)
     mech = h.choose(3, "mechanism")            # 0 NULL, 1 PLAIN equal credentials, 2 PLAIN unequal
-    with_id = h.choose(2, "client_identity") == 1
+    id_lens = h.params.get("id_lens", [0, 1])
+    mechs = h.params.get("mechs", [0, 1, 2])
+    if mech not in mechs:
+        from ..interp import PathAbort
+        raise PathAbort("mechanism not in this obligation")
+    idl = id_lens[h.choose(len(id_lens), "client_identity")]
+    with_id = idl > 0
     ckw = dict(socket_type_name=string("DEALER"))
     skw = dict(socket_type_name=string("ROUTER"))
-    idb = h.bytes("ident", 1) if with_id else []
+    idb = h.bytes("ident", idl) if with_id else []
     if with_id:
         ckw["routing_id"] = some(blob(idb))
     if mech:
@@ -123,7 +129,9 @@ def pair_convergence(h):
             ids = hs[0].f[0]
             if with_id:
                 got = list(ids.f[0].f[0].f) if ids.idx == 1 else None
-                h.check(got is not None and len(got) == 1 and simp(bv(got[0], 8) == idb[0]), "c05.pair.server-sees-wrong-identity")
+                from ..models import conj
+                h.check(got is not None and len(got) == len(idb) and conj([bv(a, 8) == b for a, b in zip(got, idb)]), "c05.pair.server-sees-wrong-identity",
+                        f"peer announced a {len(idb)}-byte routing id; HandshakeComplete carries {'none' if got is None else str(len(got)) + ' bytes'}")
             else:
                 h.check(ids.idx == 0, "c05.pair.identity-invented")
         h.cover("c05.pair.converged")
